@@ -55,6 +55,10 @@ pub trait CoordNum: Copy + PartialEq + PartialOrd
 /// geo_types::CoordFloat fragment: negation is exact; the trigonometric functions are UNINTERPRETED
 /// (nothing is assumed about the values they return)
 pub trait CoordFloat: CoordNum + core::ops::Neg<Output = Self> {
+    // num_traits::Float::{max, min, abs} on finite, non-NaN values
+    fn max(self, other: Self) -> (r: Self) ensures r.val() == (if self.val() >= other.val() { self.val() } else { other.val() });
+    fn min(self, other: Self) -> (r: Self) ensures r.val() == (if self.val() <= other.val() { self.val() } else { other.val() });
+    fn abs(self) -> (r: Self) ensures r.val() == (if self.val() >= 0 { self.val() } else { -self.val() });
     fn to_radians(self) -> Self;
     fn sin_cos(self) -> (Self, Self);
     fn tan(self) -> Self;
